@@ -299,9 +299,11 @@ var fsFiles = map[string]string{
 	"c.go":      "//go:build cff\n// +build cff\n\npackage fsp\n\n// C has the tag but no directive.\nfunc C() int { return 3 }\n",
 	"d_test.go": "//go:build cff\n// +build cff\n\npackage fsp\n\nimport (\n\t\"context\"\n\t\"testing\"\n\n\t\"go.uber.org/cff\"\n)\n\n// debug is a test helper whose name equals that of a package the generated code imports.\nfunc debug(args ...any) {}\n\nfunc TestD(t *testing.T) {\n\tvar x string\n\tif err := cff.Flow(context.Background(), cff.Results(&x), cff.Task(func() string { return \"d\" })); err != nil {\n\t\tt.Fatal(err)\n\t}\n}\n",
 	"e.go":      "package fsp\n\n// E is an ordinary file without the cff tag.\nfunc E() int { return 5 }\n",
+	// a source file whose name merely contains _test
+	"f_testutil.go": fsHeader + "// FT lives in a file that is not a test file.\nfunc FT(ctx context.Context) (uint8, error) {\n\tvar x uint8\n\terr := cff.Flow(ctx, cff.Results(&x), cff.Task(func() uint8 { return 6 }))\n\treturn x, err\n}\n",
 }
 
-var fsHasDirective = map[string]bool{"a.go": true, "b.v2.go": true, "d_test.go": true, "xa.go": true}
+var fsHasDirective = map[string]bool{"a.go": true, "b.v2.go": true, "d_test.go": true, "xa.go": true, "f_testutil.go": true}
 
 // second package of the module, with the same file base name as the first
 var fsOther = map[string]string{
@@ -419,7 +421,7 @@ func fileSetRuns(modes []string) []*fsRun {
 	var runs []*fsRun
 	for _, mode := range modes {
 		whole := &fsRun{Desc: "whole package", Mode: mode, Args: cffArgs(mode, "./fsp"), Allowed: map[string]string{}, Default: true}
-		for _, n := range append(append([]string{}, names...), "xa.go") {
+		for _, n := range append(append([]string{}, names...), "xa.go", "f_testutil.go") {
 			if fsHasDirective[n] {
 				whole.Allowed[filepath.Join("fsp", defaultOut(n))] = n
 			}
@@ -435,6 +437,11 @@ func fileSetRuns(modes []string) []*fsRun {
 		// the second package on its own
 		other := &fsRun{Desc: "package fsq alone", Mode: mode, Args: cffArgs(mode, "./fsq"), Allowed: map[string]string{filepath.Join("fsq", "a_gen.go"): "fsq/a.go"}, Default: true}
 		runs = append(runs, other)
+		{
+			r := &fsRun{Mode: mode, Allowed: map[string]string{filepath.Join("fsp", "f_testutil_gen.go"): "f_testutil.go"}, Desc: "-file f_testutil.go", Default: true}
+			r.Args = append(cffArgs(mode), "-file=f_testutil.go", "./fsp")
+			runs = append(runs, r)
+		}
 		// spellings of an explicit output path: the path is taken as given, whatever characters it contains
 		spell := []string{"o,v2/a_gen.go", "with space/a gen.go", "k=v/a_gen.go", "a=b=c.go", "\u00fcn\u00ef/a_gen.go", ".hidden/a_gen.go", "-dash/-a_gen.go", "a,b,c.go", "deep/er/still/a_gen.go", "a_gen.go.txt"}
 		for si, sp := range spell {
